@@ -14,8 +14,12 @@ package main
 //                     tracked field (rows are produced by the ordinary walker);
 //   X = closure       (a func literal, or a local variable bound to one) the
 //                     local variables of the enclosing function that the closure
-//                     captures become pseudo-fields "<Func>.<var>"; accesses
-//                     inside the closure are attributed to "<Func>$<name>",
+//                     captures and writes become pseudo-fields "<Func>.<role>"
+//                     (role: accesstable.go capturedRoles, found by the variable's
+//                     name, else by type and ordinal; "<type>#<k>" without a role);
+//                     accesses inside the closure are attributed to
+//                     "<Func>$callback" (whatever the closure's variable is called;
+//                     "$callback#2" for a second one in the same function),
 //                     accesses in the rest of the function to "<Func>".
 //
 // `multi` says whether the literal sits inside a for/range loop, i.e. whether
@@ -23,10 +27,12 @@ package main
 // worker goroutines at the same time.
 
 import (
+	"fmt"
 	"go/ast"
 	"go/token"
 	"go/types"
 	"sort"
+	"strings"
 )
 
 type callbackInfo struct {
@@ -50,6 +56,7 @@ func isQueryRequestLit(pi *pkgInfo, cl *ast.CompositeLit) bool {
 // findCallbacks scans one package for HandleResp registrations.
 func findCallbacks(pi *pkgInfo, relOf func(base string) string) []callbackInfo {
 	var out []callbackInfo
+	nlit := map[*ast.FuncDecl]int{}
 	var bases []string
 	for b := range pi.files {
 		bases = append(bases, b)
@@ -103,6 +110,7 @@ func findCallbacks(pi *pkgInfo, relOf func(base string) string) []callbackInfo {
 						continue
 					}
 					ci := callbackInfo{Multi: inLoop, File: relOf(base), Line: fset.Position(kv.Pos()).Line, encl: fd}
+					goName := "func literal"
 					switch v := ast.Unparen(kv.Value).(type) {
 					case *ast.SelectorExpr:
 						if pi.info != nil {
@@ -121,14 +129,22 @@ func findCallbacks(pi *pkgInfo, relOf func(base string) string) []callbackInfo {
 						}
 					case *ast.FuncLit:
 						ci.lit = v
-						ci.Fn = funcName(pi, fd) + "$func"
 					case *ast.Ident:
 						if pi.info != nil {
 							if fl := bound[pi.info.ObjectOf(v)]; fl != nil {
 								ci.lit = fl
-								ci.Fn = funcName(pi, fd) + "$" + v.Name
+								goName = v.Name
 							}
 						}
+					}
+					if ci.lit != nil {
+						// named by role, not by the variable the literal happens to be bound to
+						nlit[fd]++
+						ci.Fn = funcName(pi, fd) + "$callback"
+						if nlit[fd] > 1 {
+							ci.Fn += fmt.Sprintf("#%d", nlit[fd])
+						}
+						stableDisplay[ci.Fn] = funcName(pi, fd) + "$" + goName
 					}
 					if ci.Fn == "" {
 						fail("C18: cannot resolve the HandleResp callback %s registered at %s:%d", src(kv.Value), ci.File, ci.Line)
@@ -141,6 +157,26 @@ func findCallbacks(pi *pkgInfo, relOf func(base string) string) []callbackInfo {
 		}
 	}
 	return out
+}
+
+// capturedTypeKey spells the declared type of a local variable of fd: the type checker's spelling when it resolved
+// the type, else the source text of its declaration's type expression.
+func capturedTypeKey(pi *pkgInfo, fd *ast.FuncDecl, v *types.Var) string {
+	if s := typeText(v.Type()); !strings.Contains(s, "invalid type") {
+		return s
+	}
+	key := "?"
+	ast.Inspect(fd.Body, func(n ast.Node) bool {
+		if vs, ok := n.(*ast.ValueSpec); ok && vs.Type != nil {
+			for _, id := range vs.Names {
+				if pi.info.Defs[id] == v {
+					key = strings.Join(strings.Fields(src(vs.Type)), "")
+				}
+			}
+		}
+		return true
+	})
+	return key
 }
 
 // closureRows produces rows for the local variables of ci.encl that the closure ci.lit captures.
@@ -214,6 +250,52 @@ func closureRows(pi *pkgInfo, ci callbackInfo) []accessRow {
 		}
 		return true
 	})
+	// names of the written captured variables: by role (name first, then type and ordinal), else by type and ordinal
+	var ws []*types.Var
+	for v := range written {
+		ws = append(ws, v)
+	}
+	sort.Slice(ws, func(i, j int) bool { return ws[i].Pos() < ws[j].Pos() })
+	varName := map[*types.Var]string{}
+	ord := map[*types.Var]int{}
+	cnt := map[string]int{}
+	for _, v := range ws {
+		k := capturedTypeKey(pi, ci.encl, v)
+		cnt[k]++
+		ord[v] = cnt[k]
+	}
+	for _, v := range ws {
+		for _, r := range capturedRoles {
+			if r.Role == encl+"."+v.Name() {
+				varName[v] = r.Role
+			}
+		}
+	}
+	for _, v := range ws {
+		if varName[v] != "" {
+			continue
+		}
+		k := capturedTypeKey(pi, ci.encl, v)
+		name := fmt.Sprintf("%s.%s#%d", encl, k, ord[v])
+		for _, r := range capturedRoles {
+			taken := false
+			for _, n := range varName {
+				if n == r.Role {
+					taken = true
+				}
+			}
+			if !taken && strings.HasPrefix(r.Role, encl+".") && r.Type == k && r.Ord == ord[v] {
+				name = r.Role
+				fmt.Printf("extract: C18 role %s is now played by variable %s\n", r.Role, v.Name())
+			}
+		}
+		varName[v] = name
+	}
+	for v, n := range varName {
+		if g := encl + "." + v.Name(); g != n {
+			stableDisplay[n] = g
+		}
+	}
 	var rows []accessRow
 	ast.Inspect(ci.encl.Body, func(n ast.Node) bool {
 		id, ok := n.(*ast.Ident)
@@ -228,7 +310,7 @@ func closureRows(pi *pkgInfo, ci callbackInfo) []accessRow {
 		if inLit(id.Pos()) {
 			fn = ci.Fn
 		}
-		rows = append(rows, accessRow{Field: encl + "." + v.Name(), Write: writes[id], Fn: fn, File: ci.File,
+		rows = append(rows, accessRow{Field: varName[v], Write: writes[id], Fn: fn, File: ci.File,
 			Line: fset.Position(id.Pos()).Line, pos: id.Pos()})
 		return true
 	})
